@@ -286,6 +286,7 @@ def pf_model(env):
             return rec['q']
     env.stub(pfm, 'MultivariateNormal', MVN)
     env.stub(pfm.F, 'softmax', softmax)
+    env.stub(pfm.torch, 'softmax', softmax)                # either spelling of the normalisation
     env.stub(pfm.torch, 'randn', lambda *size, **k: Z.reshape(*size) if tuple(size) != (N, n) and len(size) > 1 else Z)
     env.stub(pfm.torch, 'rand', lambda *size, **k: r)
     seen = {}
